@@ -91,11 +91,22 @@ fn eval(c: &Case, chunk: usize, block: usize, rep: &mut Report) -> Option<(Value
                 ));
             }
         }
+        // The worked example of FORMAT.md lists one offset per block of the file ("Off0, Off2, Off3 and Off5" for two
+        // consecutive content blocks at Off2 and Off3); the writer lists one per contiguous run. Judged separately
+        // (recorded finding: the document and the implementation disagree, see DESIGN.md).
+        if let Some((n, _)) = d.files.iter().find(|(_, f)| !f.index_lists_every_block) {
+            rep.violate(Violation {
+                sig: json!({"kind": "index_lists_one_offset_per_run_not_per_block", "direction": "impl->codec"}),
+                detail: format!("{} ({lt}): the offsets of {} in the index are the starts of contiguous runs, not the offsets of all its blocks as in the example of FORMAT.md", c.p.short(), prog::short_name(n)),
+                replay: json!({"program": c.p.json(), "cfg": c.cfg.json(), "codec_writes": false}),
+                weight: c.p.ops.len() as u64,
+            });
+        }
         None
     } else {
         // independent codec writes, implementation reads (normal reader, linear extraction via C12's path, repair)
         let pubs = keys::publics(c.cfg.recipients);
-        let params = EncodeParams { layers: layer_bits(c.cfg.layers), recipients: &pubs, key: [0x5A; 32], nonce: [0xC3; 8], ephemeral: [0x11; 32], quality: c.cfg.level, chunk, block };
+        let params = EncodeParams { layers: layer_bits(c.cfg.layers), recipients: &pubs, key: [0x5A; 32], nonce: [0xC3; 8], ephemeral: [0x11; 32], quality: c.cfg.level, chunk, block, index_per_block: false };
         let archive = fmt1::encode(&to_blocks(&c.p), &params);
         rep.class(&format!("codec->impl/{lt}"));
         let who = c.cfg.recipients - 1;
@@ -107,6 +118,26 @@ fn eval(c: &Case, chunk: usize, block: usize, rep: &mut Report) -> Option<(Value
             Ok(Ok(got)) => {
                 if let Some(d) = prog::diff_model(&model, &got) {
                     return Some((json!({"kind": "reader_misreads_conformant_archive", "layers": lt}), d));
+                }
+            }
+        }
+        // the same archive with the index written as in the example of FORMAT.md (one offset per block)
+        if c.cfg.level == 5 {
+            let params2 = EncodeParams { index_per_block: true, ..params };
+            let archive2 = fmt1::encode(&to_blocks(&c.p), &params2);
+            if archive2 != archive {
+                let bad = match guard(|| prog::read_all(&archive2, &[who])) {
+                    Ok(Ok(got)) => prog::diff_model(&model, &got),
+                    Ok(Err(e)) => Some(e),
+                    Err(p) => Some(format!("panic: {}", p.sig())),
+                };
+                if let Some(d) = bad {
+                    rep.violate(Violation {
+                        sig: json!({"kind": "index_lists_one_offset_per_run_not_per_block", "direction": "codec->impl"}),
+                        detail: format!("{} ({lt}): an archive whose index lists the offset of every block, as in the example of FORMAT.md, is mis-read by the library: {d}", c.p.short()),
+                        replay: json!({"program": c.p.json(), "cfg": c.cfg.json(), "codec_writes": true, "index_per_block": true}),
+                        weight: c.p.ops.len() as u64,
+                    });
                 }
             }
         }
@@ -415,6 +446,12 @@ pub fn replay(path: &str) -> i32 {
             1
         }
         None => {
+            // findings reported on the side (index convention)
+            if let Some((_, v)) = r.violations.values().next() {
+                println!("replay: {}", v.detail);
+                println!("VIOLATION property=C06 replay={path}");
+                return 1;
+            }
             println!("replay: both implementations agree");
             0
         }
